@@ -1,6 +1,6 @@
 (* Wire entry points of the C12 models (evaluation cache of Function; polynomial family and its integrals). *)
 From Coq Require Import ZArith List QArith Qcanon Bool.
-From SG Require Import Base.Sx Base.QcUtil Model.FunCache Model.FunPoly.
+From SG Require Import Base.Sx Base.QcUtil Model.FunCache Model.FunPoly Model.FunCacheVec Model.FunGenz.
 Import ListNotations.
 Open Scope Z_scope.
 
@@ -79,9 +79,43 @@ Definition poly_box (f : fn) (n : nat) (ab : sx) : sx :=
   | _ => sx_err 4
   end.
 
+
+(* ---------------------------------------------------------------- machine with its own vectorised evaluation *)
+Definition get_vop (s : sx) : option vop :=
+  match s with
+  | Lv [Zv 6; b] => match get_bool b with Some b => Some (VDebug b) | None => None end
+  | _ => match get_op s with Some o => Some (VBase o) | None => None end
+  end.
+Definition get_vops (s : sx) : option (list vop) :=
+  match s with Lv l => opt_all (map get_vop l) | _ => None end.
+Definition of_vresult (r : vresult) : sx :=
+  match r with VR r => of_result r | VAssertVec => Lv [Zv (-1); Zv 4] end.
+Definition of_vstep (rs : vresult * vstate) : sx :=
+  let st := vbase (snd rs) in
+  Lv [of_vresult (fst rs); Zv (Z.of_nat (length (fd st))); of_dict (fd st); sx_bool (cache st); sx_bool (vdebug (snd rs))].
+
+(* nested arrays: `depth` axes above the points *)
+Fixpoint get_arr (depth : nat) (s : sx) : option arr :=
+  match depth with
+  | O => match get_LQc s with Some p => Some (APoint p) | None => None end
+  | S k => match s with
+           | Lv l => match opt_all (map (get_arr k) l) with Some r => Some (ANest r) | None => None end
+           | _ => None
+           end
+  end.
+Fixpoint of_varr (a : varr) : sx :=
+  match a with VRow v => of_LQc v | VNest l => Lv (map of_varr l) end.
+Definition of_shape (s : option (list nat)) : sx :=
+  match s with Some l => Lv (map (fun n => Zv (Z.of_nat n)) l) | None => sx_err 7 end.
+
 (* sub 0: (olen (fix_single fix_empty) table ops) -> ((result size dict cache_on) ...)   [eval := table lookup]
    sub 1: (fn n points boxes) -> ((dim_ok) (per point: eval, denotation value, vectorised row)
-                                  (per box: integral as coded, integral after fixes, formal integral)) *)
+                                  (per box: integral as coded, integral after fixes, formal integral))
+   sub 2: (olen (fix_single fix_empty) checks eval_table vec_table vops) -> ((vresult size dict cache_on debug) ...)
+          [eval := eval_table lookup; eval_vectorized := row-wise vec_table lookup; ops 0..5 as in sub 0, (6 b) = debug := b]
+   sub 4: (coeffs points boxes) -> GenzCornerPeak: ((per point: eval, vectorised row) (per box: analytic integral as coded,
+          the same value as iterated difference / dim!))
+   sub 3: (olen eval_table depth array) -> (result-array-of-the-generic-eval_vectorized shape-of-result shape-of-argument) *)
 Definition entry_C12 (sub : Z) (a : sx) : sx :=
   match sub, a with
   | 0, Lv [Zv olen; Lv [fs; fe]; tab; ops] =>
@@ -96,6 +130,35 @@ Definition entry_C12 (sub : Z) (a : sx) : sx :=
         let n := Z.to_nat n in
         Lv [sx_bool (fn_dim_ok n f); Lv (map (poly_point f n) pts); Lv (map (poly_box f n) boxes)]
     | _, _ => sx_err 2
+    end
+  | 2, Lv [Zv olen; Lv [fs; fe]; chk; etab; vtab; ops] =>
+    match get_bool fs, get_bool fe, get_bool chk, get_dict etab, get_dict vtab, get_vops ops with
+    | Some fs, Some fe, Some chk, Some etab, Some vtab, Some ops =>
+        Lv (map of_vstep (vrun (eval_tab etab) (Z.to_nat olen) (evec_tab vtab) chk (mkVar fs fe) vinit ops))
+    | _, _, _, _, _, _ => sx_err 5
+    end
+  | 3, Lv [Zv olen; etab; Zv depth; a] =>
+    match get_dict etab, get_arr (Z.to_nat depth) a with
+    | Some etab, Some a =>
+        match generic_vec (eval_tab etab) (Z.to_nat olen) a with
+        | Some r => Lv [of_varr r; of_shape (varr_shape r); of_shape (arr_shape a)]
+        | None => Lv [Zv (-1); Zv 3]
+        end
+    | _, _ => sx_err 6
+    end
+  | 4, Lv [cs; Lv pts; Lv boxes] =>
+    match get_LQc cs, opt_all (map get_LQc pts) with
+    | Some cs, Some pts =>
+        Lv [Lv (map (fun x => Lv [of_ires (cp_eval cs x); of_ires (cp_vec_row cs x)]) pts);
+            Lv (map (fun ab => match ab with
+                               | Lv [a; b] => match get_LQc a, get_LQc b with
+                                              | Some a, Some b => Lv [of_ires (cp_int cs a b);
+                                                                      of_Qc (stencil Qcinv 1 cs a b / qn (fact_nat (length cs)))]
+                                              | _, _ => sx_err 4
+                                              end
+                               | _ => sx_err 4
+                               end) boxes)]
+    | _, _ => sx_err 8
     end
   | _, _ => sx_err 0
   end.
